@@ -10,8 +10,9 @@ import vlib
 GEN = ["GenResolve", "GenSrcDigest"]
 TRUSTED = [
     "Coq 8.16.1 kernel (coqc); vm_compute only for the refutation witnesses and the non-vacuity examples; no axioms",
-    "translator tools/gens/gen_resolve.py (four flags: do fn if_branch / fn case_branch / the fall_through arm of fn "
-    "expression restore the scope stack; does the AK::Access arm look at the scope stack before the namespace table)",
+    "translator tools/gens/gen_resolve.py (five flags: do fn if_branch / fn case_branch / the fall_through arm of fn "
+    "expression restore the scope stack; does the AK::Access arm look at the scope stack before the namespace table; does "
+    "pub fn resolve repeat the import pass with the errors dropped until a round adds no name)",
     "Resolve/Resolver.v as the model of name_resolution.rs: hand-written, validated on every run against the real "
     "resolver (Debug dump of Vec<Var> and Vec<Statement> through the cfg-guarded hook; first error kind/file/line/columns)",
     "harness `treef` dump of sylt_parser::tree (harness/src/sexp.rs) and ocaml/past_reader.ml, tools/rustdebug.py + "
@@ -87,6 +88,12 @@ def gen_programs(ctx, n, salt):
         out.append(("gen-self-shadow", rg.single(rg.self_shadow_program(
             ci, ii, r.choice(["total", "bumped"]), r.choice(["local", "param", "global"]), r.random() < 0.5), True)))
         out.append(("gen-self-use", rg.single(rg.self_use_program(ci, ii, r.random() < 0.5), True)))
+    # re-export projects in every module order (accepted: chain, aliases, diamond, cycle; rejected: missing name,
+    # collision): the import pass of the model against the real one, first error included
+    for i in range(min(n, 24) if ctx.tier == "quick" else n // 10):
+        r = vlib.rng(ctx.seed, "%s-reexport-%d" % (salt, i))
+        for shape, files, _ in rg.reexport_projects(r, i):
+            out.append(("gen-reexport-" + shape, rg.case(files, "/main.sy", False)))
     if hasattr(rg, "module_noise"):
         for i in range(n):
             r = vlib.rng(ctx.seed, "%s-noise-%d" % (salt, i))
@@ -182,7 +189,7 @@ def tie(ctx):
         for a, b, c, d, h in zip(fixed, spec, pinned, nsfirst, hyp):
             f = dict(x.split("=") for x in h.split(" ")[1:]) if h.startswith("HYP ") else {}
             flags = f.get("flags", "????")
-            stats["flags of this run (if/case/else restore, x.f scope-first): " + flags] += 1
+            stats["flags of this run (if/case/else restore, x.f scope-first, imports to fixpoint): " + flags] += 1
             wf, nns = f.get("wf") == "t", f.get("no_ns_shadow") == "t"
             tok = f.get("tree_ok") == "t"
             stats["hypothesis tree_ok holds (C07_resolver_total: module table consistent)"] += tok
@@ -341,12 +348,16 @@ def flags_case():
     import re
     try:
         t = open(os.path.join(vlib.COQ, "Gen", "GenResolve.v"), encoding="utf-8").read()
-        m = re.search(r"gen_rflags : rflags := mkFlags (\w+) (\w+) (\w+) (\w+)\.", t)
+        m = re.search(r"gen_rflags : rflags := mkFlags (\w+) (\w+) (\w+) (\w+) (\w+)\.", t)
         fl = [x == "true" for x in m.groups()]
     except Exception as e:
         return {"flags": "unknown: %s" % e}
-    names = ["if_truncates", "case_truncates", "else_truncates", "access_local_first"]
+    names = ["if_truncates", "case_truncates", "else_truncates", "access_local_first", "imports_fixpoint"]
     d = {"flags": dict(zip(names, fl))}
+    d["imports"] = ("the import pass is repeated until it adds no name (C12_reexport_order_independent applies)" if fl[4]
+                    else "the import pass runs once in tree.modules order (C12_reexport_order_dependent applies); the "
+                         "specification of C09 takes the global tables as that pass leaves them")
+    fl = fl[:4]
     if all(fl):
         d["case"] = ("all four on: C09_resolve_refines applies -- the code is the documented specification on every "
                      "well-formed AST")
